@@ -1,7 +1,7 @@
 (* C11 driver.  Fields are TAB separated and percent-encoded (prelude.ml).
      toks   <text>                              -> ok <tok,tok,...>
      cond   <fx> <flavor> <types,> <text>       -> ok <value> | err <kind>
-     args   <argstr>                            -> ok <arg,arg,...>
+     args   <fx> <argstr>                       -> ok <arg,arg,...>
      class  <fx> <line>                         -> ok <kind>
      blocks <fx> <top> <text>                   -> ok <lbb&lbb&...> | err <kind>
      table  <fx> <top> <flavor> <types,> <text> -> ok <action|action...> | err <kind>
@@ -43,7 +43,7 @@ let handle (f : Stdlib.String.t array) : Stdlib.String.t =
     (match eval_value (bool_of_field f.(1)) (cenv_of f.(2) f.(3)) (dec_str f.(4)) with
      | Ok v -> "ok\t" ^ show_value v
      | Err k -> "err\t" ^ err_name k)
-  | "args" -> "ok\t" ^ enc_strlist ',' (split_args (dec_str f.(1)))
+  | "args" -> "ok\t" ^ enc_strlist ',' (split_args (bool_of_field f.(1)) (dec_str f.(2)))
   | "class" -> "ok\t" ^ show_kind (classify (bool_of_field f.(1)) (dec_str f.(2)))
   | "blocks" ->
     (match read_text (bool_of_field f.(1)) (dec_str f.(2)) (dec_str f.(3)) with
